@@ -14,7 +14,7 @@ def run(ck):
     res, rows = tlc_emit(ck, "LnCol", cfg, "LnCol(MaxSyms=%d)" % n)
     replay(ck, "replay-lncol", rows, "lncol")
     # (d) error chains: append / copy independence / rendering / JSON
-    m = 6 if q else 8
+    m = 6 if q else 7      # 4 x 9^(m-1) states, each emitted and replayed (m = 8 with two messages: 19 M, beyond the JVM heap)
     cfg = ("CONSTANTS MaxOps = %d\n"
            "SPECIFICATION Spec\nINVARIANTS NonEmpty InnermostFirst Emit\nPROPERTIES CopyIndependent OrigIndependent\n"
            "CHECK_DEADLOCK FALSE\n") % m
@@ -39,6 +39,11 @@ def run(ck):
     r = vlib.vh_json(["parse-total", "-seed", str(ck.seed), "-n", "1500" if q else "20000"], timeout=1500)
     from checks.common import absorb
     absorb(ck, r, "diagnostic-positions")
+    # (g) v2 typed parameter getters: a getter that refuses the bound value (an argument, or a default the script did not write)
+    #     reports a position inside the call - every behaviour of the Bind machine within small bounds
+    cfg = ("CONSTANTS MaxParams = 2\nMaxArgs = 2\nSPECIFICATION Spec\nINVARIANTS MachineAgrees Laws Emit\nCHECK_DEADLOCK FALSE\n")
+    res, rows = tlc_emit(ck, "Bind", cfg, "Bind(<=2 params, <=2 args)", timeout=900)
+    replay(ck, "replay-bind", rows, "v2-getter-positions")
     ck.cov["exhaustive"] = False
     ck.cov["rule"] = ("(a,d) every state of the TLC-explored scanning machine (all texts <= MaxSyms symbols over "
                       "{a,\\n,2-byte,3-byte rune} x every offset -1..len+1) and every behaviour of the ErrChain "
